@@ -126,10 +126,10 @@ class Run:
         counts: Dict[str, int] = {}
         for inst in self.instances:
             counts[inst.rule] = counts.get(inst.rule, 0) + 1
-        violated_rules = {i.rule for i in self.instances if i.verdict == VIOLATION}
+        any_violation = any(i.verdict == VIOLATION for i in self.instances)
         for rule, minimum in self.floors.items():
-            # a floor guards against a vacuous pass; a rule that already reports a violation is not vacuous
-            if counts.get(rule, 0) < minimum and rule not in violated_rules:
+            # a floor guards against a vacuous pass; a run that already reports a violation does not pass
+            if counts.get(rule, 0) < minimum and not any_violation:
                 self.error(rule, '-', '-', f'instance floor {minimum}',
                            f'only {counts.get(rule, 0)} instances recognised, '
                            f'{minimum} were confirmed by hand on the reference tree')
